@@ -7,7 +7,7 @@ CFG = {
     "theory_files": ["theories/Gen/Closed.v", "theories/Gen/ClosedProofs.v", "theories/Gen/FamilyProofs.v",
                      "theories/Gen/Sphere.v", "theories/Gen/Hemisphere.v", "theories/Gen/Cylinder.v",
                      "theories/Gen/Cube.v", "theories/Gen/CylinderProofs.v", "theories/Gen/SphereProofs.v",
-                     "theories/Gen/CubeProofs.v", "theories/Gen/GenProofs.v"],
+                     "theories/Gen/CubeProofs.v", "theories/Gen/CylinderGeom.v", "theories/Gen/SphereGeom.v", "theories/Gen/GenProofs.v"],
     "level_text": "Coq theorems about Gallina copies of the index-generating loops of the solid primitives (UV sphere "
                   "welded/unwelded, hemisphere, capped cylinder, welded box table, six-quad box) and their vertex "
                   "coincidence classes: well-formed indices and closed + consistently oriented surface "
